@@ -12,6 +12,7 @@ from typing import Any
 MODULE_NAME = "pbt_universe_legacy"
 
 SOURCE = '''
+import typing
 from dataclasses import dataclass, field
 from pyoak.legacy.node import AwareASTNode
 
@@ -64,6 +65,16 @@ class LHide(AwareASTNode):
 
 
 @dataclass
+class LDyn(AwareASTNode):
+    """children held in fields whose annotations name no node class: the legacy nodes find their
+    children by looking at the field values"""
+
+    dyn: typing.Any = None
+    dseq: typing.Sequence[AwareASTNode] = ()
+    v: int = 0
+
+
+@dataclass
 class LReq(AwareASTNode):
     req: AwareASTNode
     v: int = 0
@@ -76,11 +87,12 @@ CHILD_FIELDS = {
                 ("extra", "one")],
     "LFalsy": [("req", "one"), ("opt", "one"), ("items", "tuple"), ("lst", "list"), ("un", "one"), ("oseq", "otuple")],
     "LHide": [("kid", "one")],
+    "LDyn": [("dyn", "one"), ("dseq", "tuple")],
     "LReq": [("req", "one")],
 }
-PROP_FIELDS = {"LLeaf": ["v"], "LLeafB": ["s"], "LSub": ["v", "w"], "LInner": ["v"], "LInnerX": ["v"], "LFalsy": ["v"], "LHide": ["v"], "LReq": ["v"]}
+PROP_FIELDS = {"LLeaf": ["v"], "LLeafB": ["s"], "LSub": ["v", "w"], "LInner": ["v"], "LInnerX": ["v"], "LFalsy": ["v"], "LHide": ["v"], "LDyn": ["v"], "LReq": ["v"]}
 BASES = {"LLeaf": ["LLeaf"], "LLeafB": ["LLeafB"], "LSub": ["LSub", "LLeaf"], "LInner": ["LInner"],
-         "LInnerX": ["LInnerX", "LInner"], "LFalsy": ["LFalsy", "LInner"], "LHide": ["LHide"], "LReq": ["LReq"]}
+         "LInnerX": ["LInnerX", "LInner"], "LFalsy": ["LFalsy", "LInner"], "LHide": ["LHide"], "LDyn": ["LDyn"], "LReq": ["LReq"]}
 CLASS_NAMES = list(CHILD_FIELDS)
 UN_CLASSES = ("LLeaf", "LLeafB", "LSub")
 
@@ -205,7 +217,9 @@ def st_tree(leaves: int = 10, width: int = 4, wide: bool = True):
                                       "k": st.fixed_dictionaries({"kid": opt})})
         hide2 = opt.map(lambda k: {"c": "LHide", "o": ["no"], "p": {"v": 0},
                                    "k": {"kid": {"c": "LHide", "o": ["no"], "p": {"v": 0}, "k": {"kid": k}}}})
-        opts = [full, full, full, full, fullx, req, falsy, hide, hide2]
+        dyn = st.fixed_dictionaries({"c": st.just("LDyn"), "o": origin, "p": st.fixed_dictionaries({"v": st.integers(0, 2)}),
+                                     "k": st.fixed_dictionaries({"dyn": opt, "dseq": items})})
+        opts = [full, full, full, full, fullx, req, falsy, hide, hide2, dyn]
         if wide:
             w = st.fixed_dictionaries({
                 "c": st.just("LInner"), "o": origin, "p": st.just({"v": 0}),
